@@ -453,7 +453,7 @@ pub fn process<I: BufRead, O: Write>(
             let directive = substr.split(char::is_whitespace).next().unwrap_or("");
             // Before substitution, test the #ifdef
             if directive == "#ifdef" {
-                let mut parts = substr.split("//").next().unwrap().splitn(2, ' ');
+                let mut parts = substr.split("//").next().unwrap().splitn(2, char::is_whitespace);
                 parts.next().unwrap();
                 let maybe_expr = parts.next().map(|s| s.trim()).and_then(|s| {
                     if s.is_empty() {
@@ -482,7 +482,7 @@ pub fn process<I: BufRead, O: Write>(
                     state = State::Skip;
                 }
             } else if directive == "#ifndef" {
-                let mut parts = substr.split("//").next().unwrap().splitn(2, ' ');
+                let mut parts = substr.split("//").next().unwrap().splitn(2, char::is_whitespace);
                 parts.next().unwrap();
                 let maybe_expr = parts.next().map(|s| s.trim()).and_then(|s| {
                     if s.is_empty() {
@@ -512,7 +512,7 @@ pub fn process<I: BufRead, O: Write>(
                 }
             } else if directive == "#undef" {
                 if state == State::Active {
-                    let mut parts = substr.split("//").next().unwrap().splitn(2, ' ');
+                    let mut parts = substr.split("//").next().unwrap().splitn(2, char::is_whitespace);
                     parts.next().unwrap();
                     let maybe_expr = parts.next().map(|s| s.trim()).and_then(|s| {
                         if s.is_empty() {
@@ -539,7 +539,7 @@ pub fn process<I: BufRead, O: Write>(
                 }
             } else if directive == "#define" {
                 if state == State::Active {
-                    let mut parts = substr.split("//").next().unwrap().splitn(2, ' ');
+                    let mut parts = substr.split("//").next().unwrap().splitn(2, char::is_whitespace);
                     parts.next().unwrap();
                     let maybe_expr = parts.next().map(|s| s.trim()).and_then(|s| {
                         if s.is_empty() {
@@ -611,7 +611,7 @@ pub fn process<I: BufRead, O: Write>(
                 let new_line = context.replace_all(&uncommented_buf);
                 let substr = new_line.trim();
                 if substr.starts_with('#') {
-                    let mut parts = substr.split("//").next().unwrap().splitn(2, ' ');
+                    let mut parts = substr.split("//").next().unwrap().splitn(2, char::is_whitespace);
                     let name = parts.next().unwrap();
                     let maybe_expr = parts.next().map(|s| s.trim()).and_then(|s| {
                         if s.is_empty() {
